@@ -650,9 +650,10 @@ def run(tier, seed):
             "semantic soundness is proved in Coq for the model (Props/C07.v: unsnake_sound, snake_removal_sound, "
             "rigid_normal_form_sound, in every strict monoidal category with snake equations); on the implementation "
             "it is checked independently by the oracle on every yielded step under two random integer tensor functors",
-            "totality (no InterchangerError / IndexError from unsnake on well-typed input) is proved only for "
-            "obstruction-free snakes; the general statement is kept as snake_removal_total_stmt and checked "
-            "by the oracle (exception class) on every generated case",
+            "totality (no InterchangerError / IndexError / AxiomError from unsnake on well-typed input, arbitrary "
+            "obstructions) is proved in Coq for the model (Props/C07.v: snake_removal_total, normal_form_total, "
+            "rigid_trace_never_raises) and checked on the implementation by the oracle (exception class) on every "
+            "generated case",
             "F2 (twisted snake -> AxiomError) is fixed in /repo (0cc87cd) and in the model: no known finding is "
             "recognised any more; twisted corpus cases are regression cases (no exception, pair left in place)",
             "NotImplementedError is accepted only when the snake-free diagram has >= 2 connected components "
